@@ -62,8 +62,9 @@ structure Resolved where
   typ : Str
 deriving DecidableEq, Repr
 
-/-- `_resolve_arg(action=None, choices=None, (name, _param), required, typ="str")` -/
-def resolveArg (name ptyp : Str) (required0 : Bool) : Res Resolved :=
+/-- `_resolve_arg(action=None, choices=None, (name, _param), required, typ="str")`; `kw` = the name ends with
+    "kwargs" -/
+def resolveArgK (kw : Bool) (ptyp : Str) (required0 : Bool) : Res Resolved :=
   let finish (reqOverride : Option Bool) (action : Option Str) (choices : Option (List Str)) (required : Bool) (typ : Str) : Res Resolved :=
     -- `if _required is None and (typ or "").lower() in frozenset(("str", "complex", "int", "float", ...))`
     let ro := match reqOverride with
@@ -73,8 +74,7 @@ def resolveArg (name ptyp : Str) (required0 : Bool) : Res Resolved :=
   if startsWith ptyp ['<'] then .unmodelled "a type given as the repr of a class"
   else if containsSub ptyp tComplex then .unmodelled "complex"
   else if isSimple ptyp then finish none none none required0 ptyp
-  else if ptyp == tDict || endsWith name ['k', 'w', 'a', 'r', 'g', 's'] then
-    finish none none none (!endsWith name ['k', 'w', 'a', 'r', 'g', 's']) tLoads
+  else if ptyp == tDict || kw then finish none none none (!kw) tLoads
   else if ptyp.isEmpty then finish none none none required0 tStr
   else
     -- `for node in walk(ast_parse_fix(typ))`: by shape
@@ -97,6 +97,9 @@ def resolveArg (name ptyp : Str) (required0 : Bool) : Res Resolved :=
         else if base == sOptional || base == sList || base == sUnion then .unmodelled "bare Optional/List/Union"
         else finish none none none required0 tStr        -- `typ = FALLBACK_TYP`
 
+def resolveArg (name ptyp : Str) (required0 : Bool) : Res Resolved :=
+  resolveArgK (endsWith name ['k', 'w', 'a', 'r', 'g', 's']) ptyp required0
+
 /-- the `default is None` branch of `infer_type_and_default`: the type survives only when it mentions
     `Optional` or is one of Any / pickle.loads / loads -/
 def typAfterNone (typ : Str) : Option Str :=
@@ -113,19 +116,32 @@ def inferTypeAndDefault (dv : Val) (typ : Str) : Res (Option Val × Option Str) 
   | .none => .ok (none, typAfterNone typ)
   | v => .ok (some v, some (typeName v))
 
+/-- `set_value(choice)` on a string member -/
+def cleanChoice (m : Str) : Str := match setValue (.str m) with | .str s => s | _ => m
+
+/-- `_param.get("default") is not None` -/
+def required0Of : Option Val → Bool
+  | some .none => false
+  | some _ => true
+  | none => false
+
+/-- `_param.get("default", _default)` (`_default` = what `extract_default` found in the prose) -/
+def dvOf : Option Val → Option Val → Val
+  | some v, _ => v
+  | none, e => e.getD .none
+
 /-- `param2argparse_param((name, param), word_wrap=False, emit_default_doc)` -/
 def param2argparse (name : Str) (p : Param) (edd : Bool) : Res AddArg :=
-  let required0 := match p.default with | some .none => false | some _ => true | none => false
+  let required0 := required0Of p.default
   (resolveArg name (p.typ.getD tAny) required0).bind fun r =>
   (extractDefault (p.doc.getD []) none edd).bind fun e =>
-  -- `_param.get("default", _default)`
-  let dv : Val := match p.default with | some v => v | none => e.default.getD .none
+  let dv : Val := dvOf p.default e.default
   (inferTypeAndDefault dv r.typ).bind fun dt =>
   let required := if dt.1.isNone && p.default == some (.str noneStr) then false else r.required
   let typ := dt.2.getD r.typ
   let typ : Option Str := if typ == tStr && r.action.isNone then none else some typ
   .ok { typ := typ,
-        choices := r.choices.map (·.map fun m => match setValue (.str m) with | .str s => s | _ => m),
+        choices := r.choices.map (·.map cleanChoice),
         action := r.action,
         help := if e.doc.isEmpty then none else some e.doc,
         required := required,
@@ -142,39 +158,50 @@ def handleChoices (ms : List Str) (typ : Str) : Str :=
     sLiteralName ++ ['['] ++ joinSep [',', ' '] (if typ == tStr then ms.map fun m => ['\''] ++ m ++ ['\''] else ms) ++ [']']
   else sUnion ++ ['['] ++ joinSep [',', ' '] ms ++ [']']
 
+/-- the raw type read from the `type=` keyword (`_handle_value`; `str` when there is none) -/
+def typ0Of (t : Option Str) : Str :=
+  match t with
+  | some t => if t == tLoads then "Optional[dict]".toList else t
+  | none => tStr
+
+/-- the `doc` lambda of `parse_out_param`: the help text, with the default sentence appended when asked for -/
+def docOf (help : Option Str) (default : Option Val) (edd : Bool) : Res (Option Str) :=
+  match help with
+  | none => .ok none
+  | some h =>
+    match default with
+    | none => .ok (some h)
+    | some d =>
+      if !edd || d == .str [] || containsSub h "defaults to".toList || containsSub h "Defaults to".toList then .ok (some h)
+      else (fmtVal d).bind fun sv =>
+        .ok (some ((if endsWith h ['.'] then h else h ++ ['.']) ++ " Defaults to ".toList ++ sv))
+
+/-- the default of an entry that has none in the call nor in its help text -/
+def fillDefault (typ0 : Str) (required requireDefault : Bool) : Option Val :=
+  if required then some (if isSimple typ0 then zeroOf typ0 else .str noneStr)
+  else if requireDefault || startsWith typ0 sOptional then some (.str noneStr)
+  else none
+
+/-- `choices=` -> Literal/Union, `action="append"` -> List[...], not required -> Optional[...] -/
+def typStage (choices : Option (List Str)) (action : Option Str) (required : Bool) (typ0 : Str) : Str :=
+  let typ := match choices with | some ms => handleChoices ms typ0 | none => typ0
+  let typ := if action == some sAppend then sList ++ ['['] ++ typ ++ [']'] else typ
+  if !required && !containsSub typ sOptional then sOptional ++ ['['] ++ typ ++ [']'] else typ
+
 /-- `parse_out_param(expr, require_default, emit_default_doc)` -/
 def parseOutParam (a : AddArg) (requireDefault edd : Bool) : Res Param :=
-  let typ0 : Str := match a.typ with
-    | some t => if t == tLoads then "Optional[dict]".toList else t
-    | none => tStr
-  if typ0 == tComplex then .unmodelled "complex" else
-  -- the `doc` lambda
-  let doc0 : Res (Option Str) := match a.help with
-    | none => .ok none
-    | some h =>
-      match a.default with
-      | none => .ok (some h)
-      | some d =>
-        if !edd || d == .str [] || containsSub h "defaults to".toList || containsSub h "Defaults to".toList then .ok (some h)
-        else (fmtVal d).bind fun sv =>
-          .ok (some ((if endsWith h ['.'] then h else h ++ ['.']) ++ " Defaults to ".toList ++ sv))
-  doc0.bind fun doc0 =>
+  if typ0Of a.typ == tComplex then .unmodelled "complex" else
+  (docOf a.help a.default edd).bind fun doc0 =>
   -- `if default is None: doc, default = extract_default(doc, emit_default_doc=emit_default_doc)`
   let ex : Res (Option Str × Option Val) := match a.default, doc0 with
     | some d, doc => .ok (doc, some d)
     | none, none => .ok (none, none)
     | none, some h => (extractDefault h none edd).bind fun e => .ok (some e.doc, e.default)
-  ex.bind fun (doc, default) =>
-  let default : Option Val := match default with
-    | some d => some d
-    | none =>
-      if a.required then some (if isSimple typ0 then zeroOf typ0 else .str noneStr)
-      else if requireDefault || startsWith typ0 sOptional then some (.str noneStr)
-      else none
-  let typ := match a.choices with | some ms => handleChoices ms typ0 | none => typ0
-  let typ := if a.action == some sAppend then sList ++ ['['] ++ typ ++ [']'] else typ
-  let typ := if !a.required && !containsSub typ sOptional then sOptional ++ ['['] ++ typ ++ [']'] else typ
-  .ok { doc := doc, typ := some typ, default := default }
+  ex.bind fun dd =>
+  .ok { doc := dd.1, typ := some (typStage a.choices a.action a.required (typ0Of a.typ)),
+        default := match dd.2 with
+          | some d => some d
+          | none => fillDefault (typ0Of a.typ) a.required requireDefault }
 
 /-- one entry through the argparse emitter and parser (`parse.argparse_ast` passes `emit_default_doc=False`) -/
 def argRT (name : Str) (p : Param) (edd requireDefault : Bool) : Res Param :=
